@@ -99,6 +99,8 @@ def main():
     sd = os.environ.get('VERIF_SEED')
     runs.update({f'{c}:{tier}' + (f':seed{sd}' if sd else ''): r for c, r in results.items()})
     meta_out['checks_run'] = runs
+    if prev.get('assessment'):
+        meta_out['assessment'] = prev['assessment']
     meta_out['repo_commit'] = subprocess.run('git -C /repo rev-parse --short HEAD', shell=True, stdout=subprocess.PIPE, text=True).stdout.strip()
     json.dump(meta_out, open(f'{out}/meta.json', 'w'), indent=1)
 
